@@ -34,6 +34,8 @@ type cworld struct {
 	r   *sim.CNode
 	pg  *sim.Pager
 
+	base     int64 // stream bytes delivered to the replica when the window opened
+	cutAt    int
 	exitOnce sync.Once
 	mu       sync.Mutex
 	armed    bool
@@ -63,6 +65,14 @@ func (w *cworld) arm(k int) {
 	w.mu.Lock()
 	w.armed, w.count, w.failAt, w.hit, w.events = true, 0, k, "", nil
 	w.mu.Unlock()
+	if w.c.Kind == "cut" {
+		w.base = w.r.Client.Delivered()
+		if k >= 0 {
+			w.r.Client.CutAfter(w.base + int64(k) + 1)
+			w.hit = fmt.Sprintf("stream-cut")
+			w.cutAt = k
+		}
+	}
 }
 func (w *cworld) disarm() []string {
 	w.mu.Lock()
@@ -206,6 +216,7 @@ func sweepCluster(rep *core.Report, sel Select, c Case, l sim.Layout) {
 	ref := openCWorld(c, l)
 	ok, err := ref.op(-1)
 	events := ref.disarm()
+	streamBytes := int(ref.r.Client.Delivered() - ref.base)
 	ref.close()
 	if err != nil || !ok {
 		core.Infra("faults: fault-free run of %s did not converge (err=%v)", c.Key(), err)
@@ -218,6 +229,40 @@ func sweepCluster(rep *core.Report, sel Select, c Case, l sim.Layout) {
 	points := len(events)
 	if sel.MaxPoints > 0 && points > sel.MaxPoints {
 		points = sel.MaxPoints
+	}
+	if c.Kind == "cut" {
+		// the stream breaks after k+1 of the bytes the primary sends for this operation: every offset of the first 48
+		// and the last 48 bytes (frame type, header fields, name, trailer), a stride through the page data in between
+		if streamBytes <= 0 {
+			core.Infra("faults: no stream bytes were delivered in the fault-free run of %s", c.Key())
+		}
+		stride, edge := 997, 24
+		if sel.Thorough {
+			stride, edge = 53, 48
+		}
+		seen := map[int]bool{}
+		var offs []int
+		add := func(k int) {
+			if k >= 0 && k < streamBytes && !seen[k] {
+				seen[k] = true
+				offs = append(offs, k)
+			}
+		}
+		for k := 0; k < edge; k++ {
+			add(k)
+			add(streamBytes - 1 - k)
+		}
+		for k := edge; k < streamBytes; k += stride {
+			add(k)
+		}
+		rep.Case("faults:"+key, true)
+		for _, k := range offs {
+			oneCluster(rep, sel, c, l, k)
+			if rep.ViolationCount() >= 20 {
+				return
+			}
+		}
+		return
 	}
 	for k := 0; k < points; k++ {
 		oneCluster(rep, sel, c, l, k)
@@ -238,6 +283,9 @@ func oneCluster(rep *core.Report, sel Select, c Case, l sim.Layout, k int) {
 	hit := w.hit
 	if hit == "" {
 		return
+	}
+	if c.Kind == "cut" {
+		hit = "stream-cut" // the byte offset is in the detail, not in the signature
 	}
 	rep.Eval(1)
 	lockPg := l.LockPgno()
